@@ -26,7 +26,26 @@ def plan(tier):
     return dict(cases=1920, shards=16, timeout=400, min_nontrivial=150)
 
 
+def run_lifecycle_case(index, rng, tier):
+    """Channels that come and go (the create / send / close programs of C13, ids re-used by later channels): the delivery
+    oracle is the same - what a reliable channel delivers is a duplicate-free prefix of what was sent on it, intact."""
+    from vt.props import c13
+
+    r = c13.run_case(index, rng, tier, force_shape="directed-id-reuse" if index % 48 == 6 else None)
+    viol = [{"key": "C01/" + ("id-reused-while-peer-closing" if v.get("id_reused_while_peer_closing") else str(v["key"])),
+             "what": v["what"], "witness": {"v": {k: v[k] for k in v if k not in ("prog", "ops")},
+             "prog": v.get("prog"), "ops": v.get("ops"), "kind": "lifecycle program"}}
+            for v in r.get("rig_violations", []) if v["cat"] in CATS]
+    c = {k: v for k, v in r["counters"].items() if k in ("messages_checked", "close_calls", "open_events", "multifragment_delivered")}
+    c["lifecycle_program_cases"] = 1
+    c["lifecycle_program_messages_checked"] = c.get("messages_checked", 0)
+    return dict(hash="lc" + r["hash"], nontrivial=False, counters=c, violations=viol, evals=c.get("messages_checked", 0),
+                inconclusive=r.get("inconclusive"), sample=None)
+
+
 def run_case(index, rng, tier):
+    if index % 8 == 6:
+        return run_lifecycle_case(index, rng, tier)
     relay = (index % 10 == 9)
     heavy = (index % 3 == 0)
     # one case in four: partially reliable channels share the association (their abandoning must not disturb reliable ones)
